@@ -263,6 +263,12 @@ type Conn struct {
 	// SplitAt > 0: Exchange writes the first SplitAt bytes, pauses (SplitPause, or yields), then the rest
 	SplitAt    int
 	SplitPause time.Duration
+	// Strict: Exchange sends the request alone, waits until the server has gone back to waiting
+	// for input, notes whether reply bytes were still sitting unflushed in its write buffer at
+	// that moment (Unflushed, sticky), and only then sends the sentinel
+	Strict    bool
+	Unflushed int // > 0: that many bytes were found unflushed while the server waited for input
+	idle      chan int
 }
 
 // Dial starts a server loop for a new client connection on the given deployment.
@@ -294,7 +300,16 @@ func Dial(b *Backends, cfg Config) *Conn {
 	parser := comps.NewRequestParser(rr)
 	resp := comps.NewResponder(ww)
 	s := server.Default([]io.Closer{srv, l1, l2}, parser, orcaConst(cfg)(l1, l2, resp))
-	c := &Conn{cfg: cfg, client: cl, rd: bufio.NewReaderSize(cl, 1<<16), Done: make(chan struct{}), l1c: l1, l2c: l2, nextSentinel: 0xFEED0000}
+	c := &Conn{cfg: cfg, client: cl, rd: bufio.NewReaderSize(cl, 1<<16), Done: make(chan struct{}), l1c: l1, l2c: l2, nextSentinel: 0xFEED0000, idle: make(chan int, 1)}
+	srv.(*pipeEnd).onIdle = func() {
+		// runs in the server loop's goroutine (the only user of ww) when it waits for client input
+		n := ww.Buffered()
+		select {
+		case <-c.idle:
+		default:
+		}
+		c.idle <- n
+	}
 	go func() {
 		s.Loop()
 		close(c.Done)
@@ -319,6 +334,27 @@ func (c *Conn) Exchange(req []byte, timeout time.Duration) (reply []byte, closed
 		sentinel = []byte("noop\r\n")
 	} else {
 		sentinel = binHdr(0x0a, 0, 0, 0, c.nextSentinel)
+	}
+	if c.Strict && c.idle != nil && len(req) > 0 {
+		// the server is waiting for input (it posted a token when it got there, after the dial or
+		// after the previous exchange): take that token, so that the next one belongs to this request
+		select {
+		case <-c.idle:
+		case <-c.Done:
+		case <-time.After(2 * time.Second):
+		}
+		if _, err := c.client.Write(req); err != nil {
+			return nil, true, nil
+		}
+		select {
+		case n := <-c.idle:
+			if n > 0 && c.Unflushed == 0 {
+				c.Unflushed = n
+			}
+		case <-c.Done:
+		case <-time.After(timeout):
+		}
+		req = nil
 	}
 	all := append(append([]byte(nil), req...), sentinel...)
 	if c.SplitAt > 0 && c.SplitAt < len(all) {
